@@ -27,6 +27,14 @@ state machine (sub-actions in the order of prepare_run / RunInfo.create, abstrac
    default_pair: two functions sharing a root argument declare two different defaults out of {None, 0, an ordinary value}
    in both orders; the harness hands None and 0 to the real code as the Python objects (LITERALS), after checking that
    they encode back to the term TLC judged.
+6. Two universes of their own in a fourth TLC process (families wide_zip, derived_mapspec).  wide_zip: one MapSpec with
+   THREE OR FOUR arrays on a shared axis (mixed ranks, one of them optionally produced upstream), every root array grown
+   and shrunk along every axis - the array out of step is the first, a middle or the last one (law
+   Validity!LawZipIsAboutAllArrays: one size per axis name, any listing order).  derived_mapspec: MapSpecs that pipefunc
+   DERIVES (Validity!Nest = NestedPipeFunc's combined MapSpec, Validity!AddMapspecAxis = Pipeline.add_mapspec_axis) next
+   to a hand-written consumer with an axis-name fault.  The harness builds the hand-written functions `pre`, lets the real
+   library derive (NestedPipeFunc([...]) / add_mapspec_axis), checks that the derived function(s) are the ones TLC
+   derived (same_function; MachineryError otherwise) and only then constructs the pipeline / adds the consumer.
 """
 from __future__ import annotations
 
@@ -60,15 +68,18 @@ INVS = "InvRejectIsPure InvNoCodeBeforeAccept InvOnlyReject InvValidAccepted Inv
 MCFG = """SPECIFICATION MSpec
 CONSTANTS MaxSize = {maxsize} RichM = {richm} ShardM = {shardm} NShardsM = {nshardsm}
           N = {n} RichP = {richp} ShardP = {shardp} NShardsP = {nshardsp} StorageCheck = "{storage_check}"
-          KwargCheck = "{kwarg_check}" ShardT = {shardt} NShardsT = {nshardst} Families = {{{families}}}
+          KwargCheck = "{kwarg_check}" ShardT = {shardt} NShardsT = {nshardst} ShardD = {shardd} NShardsD = {nshardsd}
+          Families = {{{families}}}
 INVARIANT {invs}
 """
 FAMILIES_N2 = ("basic", "storage_dict", "post_map", "post_call", "call_kw", "illformed_call", "illformed_run_func")   # everything
 FAMILIES_N3 = ("post_call", "illformed_call")    # three functions: the faults met through the call side, every output
 FAMILIES_TUPLE = ("tuple_output",)               # faults at a non-first output of a tuple output (universe of its own)
+FAMILIES_WIDE = ("wide_zip", "derived_mapspec")  # >= 3 arrays on one axis; library-derived MapSpecs (universes of their own)
+NSHARDS_D = 4                                    # residues of MC_Validity!DerivedKey (chain cases of the derived-MapSpec family)
 NSHARDS_T = 64                                   # every residue of MC_Validity!TupleKey is inhabited (6 .. 56 cases)
 TRACE_CONSTANTS = ('MaxSize = 1 RichM = FALSE ShardM = 1 NShardsM = 1 N = 2 RichP = FALSE ShardP = 1 NShardsP = 1 '
-                   'StorageCheck = "early" KwargCheck = "early" ShardT = 0 NShardsT = 1 Families = {}')   # empty universes; the REQUIRED positions of the checks
+                   'StorageCheck = "early" KwargCheck = "early" ShardT = 0 NShardsT = 1 ShardD = 0 NShardsD = 1 Families = {}')   # empty universes; the REQUIRED positions of the checks
 NPROC = min(8, os.cpu_count() or 4)
 
 
@@ -132,6 +143,19 @@ def make_pipeline(pydesc: dict):
     return Pipeline(funcs)
 
 
+def same_function(pf, fd: dict) -> bool:
+    """Is the real PipeFunc the function record `fd` (TLA form)?  Output names, parameters and the MapSpec; the listing
+    order inside the MapSpec / of a nested function's names is not part of a description (compared as sets)."""
+    outs = pf.output_name if isinstance(pf.output_name, tuple) else (pf.output_name,)
+    if set(outs) != set(fd["outputs"]) or sorted(pf.parameters) != sorted(fd["params"]):
+        return False
+    real = build.parse_mapspec(str(pf.mapspec) if pf.mapspec is not None else None)
+    def norm(specs):
+        return sorted((x["name"], tuple(x["axes"])) for x in specs)
+    return bool(pf.mapspec is not None) == bool(fd["has_ms"]) and (not fd["has_ms"] or (
+        norm(real["ins"]) == norm(fd["ms"]["ins"]) and norm(real["outs"]) == norm(fd["ms"]["outs"])))
+
+
 def signature_of(pl) -> list:
     return sorted((tuple(f.output_name) if isinstance(f.output_name, tuple) else (f.output_name,), tuple(sorted(f.parameters)))
                   for f in pl.functions)
@@ -152,7 +176,7 @@ def run_request(req: dict, run_folder: str | None, kinds: dict | None = None, ho
     try:
         with contextlib.redirect_stdout(io.StringIO()), warnings.catch_warnings():
             warnings.simplefilter("ignore")
-            if how and how["kind"]:
+            if how and how["kind"] in ("rename", "defaults"):
                 base = req["prev"]["desc"]
                 pl = make_pipeline(pmap.tla_desc_to_py(base))
                 stage = "mutate"
@@ -165,6 +189,38 @@ def run_request(req: dict, run_folder: str | None, kinds: dict | None = None, ho
                     raise ValueError(how["kind"])
                 want = sorted((tuple(f["outputs"]), tuple(sorted(f["params"]))) for f in tdesc["funcs"])
                 mismatch = signature_of(pl) != want
+            elif how and how.get("kind") == "nest":
+                # the library derives the combined MapSpec: NestedPipeFunc([how.f, how.old]) of the hand-built functions `pre`;
+                # it must be the first function of the description TLC judged (checked BEFORE the Pipeline is constructed)
+                from pipefunc import NestedPipeFunc, Pipeline
+                try:          # harness-only preparation: a failure here is no rejection by pipefunc
+                    pre = pmap.tla_desc_to_py(how["pre"])
+                    pfs = [(fd["name"], build.make_pipefunc(fd)) for fd in pre["funcs"]]
+                except Exception as ex:  # noqa: BLE001
+                    raise MachineryError(f"nest: cannot build the functions of `pre`: {ex!r}") from ex
+                stage = "mutate"
+                nested = NestedPipeFunc([pf for n, pf in pfs if n in (how["f"], how["old"])])
+                if not same_function(nested, tdesc["funcs"][0]):
+                    raise MachineryError(f"NestedPipeFunc {nested.output_name} {nested.parameters} {nested.mapspec} is not the "
+                                         f"function the specification derived: {tdesc['funcs'][0]}")
+                stage = "construct"
+                pl = Pipeline([nested] + [pf for n, pf in pfs if n not in (how["f"], how["old"])])
+            elif how and how.get("kind") == "add_axis":
+                # Pipeline(pre).add_mapspec_axis(how.old, axis=how.new) rewrites the MapSpecs (they must be the ones TLC
+                # derived), then the hand-written consumer - the last function of the description - is added
+                try:          # the valid pipeline before the axis (harness-only preparation + a valid construction)
+                    pl = make_pipeline(pmap.tla_desc_to_py(how["pre"]))
+                    last = build.make_pipefunc(pmap.tla_desc_to_py({"funcs": tdesc["funcs"][-1:]})["funcs"][0])
+                except Exception as ex:  # noqa: BLE001
+                    raise MachineryError(f"add_axis: cannot build the pipeline `pre` / the consumer: {ex!r}") from ex
+                stage = "mutate"
+                pl.add_mapspec_axis(how["old"], axis=how["new"])
+                for fd in tdesc["funcs"][:-1]:
+                    if not same_function(pl[fd["outputs"][0]], fd):
+                        raise MachineryError(f"after add_mapspec_axis: {pl[fd['outputs'][0]].mapspec} is not what the specification "
+                                             f"derived: {fd}")
+                stage = "construct"
+                pl.add(last)
             else:
                 pl = make_pipeline(pmap.tla_desc_to_py(tdesc))
             stage = req.get("entry", "map")
@@ -258,12 +314,46 @@ def discrepancies(exp: dict, obs: dict) -> list[str]:
 KNOWN = ("dict", "file_array", "shared_memory_dict")
 
 
+def _shape(v: dict) -> list[int]:
+    sh = []
+    while v["f"] == "#arr" and v["a"]:
+        sh.append(len(v["a"]))
+        v = v["a"][0]
+    return sh
+
+
+def out_of_step(req: dict) -> str:
+    """LABEL (never a verdict): in the widest zip of root arrays, is the array whose size differs from all the others the
+    "first", a "middle" or the "last" one of the MapSpec?  ("" when that cannot be told from the root inputs.)"""
+    inp = {n: _shape(v) for n, v in req["inputs"]}
+    prod = {o: f for f in req["desc"]["funcs"] for o in f["outputs"]}
+    for f in req["desc"]["funcs"]:
+        if not f["has_ms"]:
+            continue
+        for a in sorted({x for sp in f["ms"]["ins"] for x in sp["axes"] if x != ":"}):
+            sizes = []
+            for sp in f["ms"]["ins"]:
+                if a not in sp["axes"]:
+                    continue
+                src = sp["name"]
+                if src in prod and len(prod[src]["params"]) == 1:      # produced element-wise from one root array
+                    src = prod[src]["params"][0]
+                sh = inp.get(src)
+                if sh is None or len(sh) != len(sp["axes"]):
+                    return ""
+                sizes.append(sh[sp["axes"].index(a)])
+            odd = [k for k, x in enumerate(sizes) if sizes.count(x) == 1]
+            if len(sizes) >= 3 and len(odd) == 1:
+                return "first" if odd[0] == 0 else "last" if odd[0] == len(sizes) - 1 else "middle"
+    return ""
+
+
 def features(req: dict, how: dict | None = None) -> dict:
     """Labels for violation signatures (they classify, they never judge)."""
     fs = req["desc"]["funcs"]
     cfg = req["cfg"]
     sd = cfg.get("sdict") or []
-    feat = {"entry": req.get("entry", "map"), "post_construction": bool(how and how["kind"]),
+    feat = {"entry": req.get("entry", "map"), "post_construction": bool(how and how["kind"] in ("rename", "defaults")),
             "mapped": any(f["has_ms"] and f["ms"]["ins"] for f in fs), "internal_shape": any(f["internal"] for f in fs),
             "cleanup": cfg["cleanup"], "folder": cfg["folder"], "storage_dict": bool(sd),
             "executor_form": "none" if not cfg["executor"] else "dict" if cfg.get("ekeys") else "bare",
@@ -278,6 +368,16 @@ def features(req: dict, how: dict | None = None) -> dict:
         feat["shared_defaults"] = shared[0]
     if any(len(f["outputs"]) > 1 for f in fs):
         feat["tuple_output"] = True
+    if how and how.get("kind") in ("nest", "add_axis"):
+        feat["derived_mapspec"] = how["kind"]
+    # the widest zip: how many arrays of one MapSpec share an axis name; which of them is out of step with the others
+    width = max([sum(1 for sp in f["ms"]["ins"] if a in sp["axes"]) for f in fs if f["has_ms"]
+                 for a in {x for sp in f["ms"]["ins"] for x in sp["axes"] if x != ":"}], default=0)
+    if width >= 3:
+        feat["zip_width"] = width
+        where = out_of_step(req)
+        if where:
+            feat["zip_out_of_step"] = where
     if sd:
         unk = next((k for k, e in enumerate(sd) if e["name"] not in KNOWN), None)
         if unk is not None:
@@ -297,7 +397,11 @@ def report(ctx: Ctx, kind: str, exp: dict, obs: dict, bad: list[str]) -> None:
            "outcome": obs["outcome"], "cls": obs["cls"], **features(req, exp.get("how"))}
     what = (f"call {req['out']!r} with keywords {[n for n, _ in req['inputs']]}" if req.get("entry") == "call"
             else f"map cleanup={req['cfg']['cleanup']} storage={storage_arg(req['cfg'])} folder={req['cfg']['folder']}")
-    if exp.get("how") and exp["how"]["kind"]:
+    if exp.get("how") and exp["how"]["kind"] in ("nest", "add_axis"):
+        h = exp["how"]
+        what = (f"Pipeline([NestedPipeFunc([{h['f']}, {h['old']}]), ...]) " if h["kind"] == "nest"
+                else f"after add_mapspec_axis({h['old']!r}, axis={h['new']!r}) and add({h['f']}) ") + what
+    elif exp.get("how") and exp["how"]["kind"]:
         h = exp["how"]
         what = (f"after pipeline[{h['f']}].update_renames({{{h['old']!r}: {h['new']!r}}}) " if h["kind"] == "rename"
                 else f"after pipeline[{h['f']}].update_defaults({{{h['old']!r}: ...}}) ") + what
@@ -310,11 +414,11 @@ def report(ctx: Ctx, kind: str, exp: dict, obs: dict, bad: list[str]) -> None:
 
 # ---- TLC ------------------------------------------------------------------------------------------------------------
 def mcfg(shardm: int, nshardsm: int, shardp: int, nshardsp: int, n: int = 2, families: tuple = FAMILIES_N2,
-         shardt: int = 0, nshardst: int = 1, *, maxsize: int = 2, rich: bool = False, storage_check: str = "early", kwarg_check: str = "early",
+         shardt: int = 0, nshardst: int = 1, shardd: int = 0, nshardsd: int = 1, *, maxsize: int = 2, rich: bool = False, storage_check: str = "early", kwarg_check: str = "early",
          invs: str | None = None) -> str:
     return MCFG.format(maxsize=maxsize, richm="TRUE" if rich else "FALSE", shardm=shardm, nshardsm=nshardsm, n=n,
                        richp="TRUE" if rich else "FALSE", shardp=shardp, nshardsp=nshardsp, storage_check=storage_check,
-                       kwarg_check=kwarg_check, shardt=shardt, nshardst=nshardst,
+                       kwarg_check=kwarg_check, shardt=shardt, nshardst=nshardst, shardd=shardd, nshardsd=nshardsd,
                        families=", ".join(f'"{f}"' for f in families),
                        invs=invs if invs is not None else f"{LAWS} {INVS} Emit")
 
@@ -330,9 +434,13 @@ def export_mutants(ctx: Ctx, shards: list[tuple], workers: int, **kw) -> tuple[l
         for k, r in enumerate(ex.map(one, range(len(shards)))):
             ctx.add_tlc(r, f"MC_Validity MSpec early, shards M {shards[k][0]}/{shards[k][1]} P {shards[k][2]}/{shards[k][3]}"
                            + (f" N={shards[k][4]} families={list(shards[k][5])}" if len(shards[k]) > 4 else "")
-                           + (f" T {shards[k][6]}/{shards[k][7]}" if len(shards[k]) > 6 else ""))
+                           + (f" T {shards[k][6]}/{shards[k][7]}" if len(shards[k]) > 6 else "")
+                           + (f" D {shards[k][8]}/{shards[k][9]}" if len(shards[k]) > 8 else ""))
             for t, p in parse_prints(r.prints):
                 if t == "CASE":
+                    pre = p.pop("pre", None)
+                    if p["how"]["kind"] in ("nest", "add_axis"):      # what the harness builds by hand before the library derives
+                        p["how"] = dict(p["how"], pre=pre)
                     cases.append(p)
                 elif t == "STAYED_VALID":
                     stayed[p["op"]] = stayed.get(p["op"], 0) + 1
@@ -340,6 +448,12 @@ def export_mutants(ctx: Ctx, shards: list[tuple], workers: int, **kw) -> tuple[l
         raise MachineryError("MC_Validity: a universe shard is empty (no mapped / no call-style mutants exported)")
     if any(len(sh) > 5 and "tuple_output" in sh[5] for sh in shards) and not any(c["op"] == "axis_names_sibling" for c in cases):
         raise MachineryError("MC_Validity: the tuple-output shard is empty (no axis_names_sibling mutant exported)")
+    if any(len(sh) > 5 and "wide_zip" in sh[5] for sh in shards):
+        wide = [c for c in cases if c["op"] == "resized_axis_wide"]
+        if not any(features(c["req"]).get("zip_out_of_step") == "middle" for c in wide) or \
+                {c["op"] for c in cases} & {"axis_names_nested", "axis_names_added_axis"} != {"axis_names_nested", "axis_names_added_axis"}:
+            raise MachineryError("MC_Validity: the wide-zip / derived-MapSpec shard is empty (no mutant with a MIDDLE array out "
+                                 "of step, or no axis-name mutant next to a nested / an add_mapspec_axis MapSpec)")
     if not any(c["op"] == "default_pair" and features(c["req"]).get("shared_defaults", "").startswith("none>") for c in cases):
         raise MachineryError("MC_Validity: no default_pair mutant in which the FIRST declaration is None was exported")
     cases.sort(key=lambda c: json.dumps(c, sort_keys=True))
@@ -483,9 +597,9 @@ def fixed_jobs() -> list[dict]:
     C = lambda **kw: {**CFG0, **kw}  # noqa: E731
     ex = []
 
-    def add(label, funcs, inputs, cfg=None, base=None, entry="map", out=""):
+    def add(label, funcs, inputs, cfg=None, base=None, entry="map", out="", how=None):
         ex.append({"label": label, "desc": desc_to_tla({"funcs": funcs}), "inputs": inputs,
-                   "cfg": cfg or C(folder=entry == "map"), "op": "fixed", "base": base, "entry": entry, "out": out})
+                   "cfg": cfg or C(folder=entry == "map"), "op": "fixed", "base": base, "entry": entry, "out": out, "how": how})
     add("tests/test_pipeline.py:162 inconsistent defaults",
         [_f("f", ["a", "b"], ["c"], defaults={"b": _atom("1")}), _f("g", ["a", "b"], ["d"], defaults={"b": _atom("2")})],
         [["a", _atom("1")]])
@@ -559,6 +673,24 @@ def fixed_jobs() -> list[dict]:
     add("tuple output: consumer of the 2nd output renames an axis", [outer, _f("use_b", ["b"], ["e"], "b[i, k] -> e[i, k]")], xy)
     add("tuple output: consumer of the 2nd output uses the producer's axes (accepted)",
         [outer, use_a, _f("use_b", ["b"], ["e"], "b[i, j] -> e[i, j]")], xy)
+    # three arrays zipped along one axis: the one that is out of step is the first / the middle / the last, longer / shorter
+    zip3 = [_f("combine", ["a", "b", "c"], ["y"], "a[i], b[i], c[i] -> y[i]"), _f("total", ["y"], ["t"])]
+    for which, n3 in (("first", (4, 3, 3)), ("middle", (3, 4, 3)), ("middle", (3, 2, 3)), ("last", (3, 3, 2)), ("no", (3, 3, 3))):
+        add(f"three arrays zipped along i, sizes {n3}: the {which} one out of step" + (" (accepted)" if which == "no" else ""),
+            zip3, [[n, _arr(n, k)] for n, k in zip("abc", n3)])
+    # an axis-name swap in a hand-written consumer next to MapSpecs that the library derived
+    f1, e1 = _f("f", ["a"], ["y"], "a[i] -> y[i]"), _f("e", ["y"], ["z"], "y[i] -> z[i]")
+    for ax, verdict in (("j", ""), ("i", " (accepted)")):
+        h1 = _f("h", ["z", "b"], ["w"], f"z[{ax}], b[{ax}] -> w[{ax}]")
+        add(f"Pipeline([NestedPipeFunc([f, e]), h]) with h: z[{ax}], b[{ax}] -> w[{ax}]" + verdict,
+            [_f("nest", ["a"], ["y", "z"], "a[i] -> y[i], z[i]"), h1], [["a", _arr("a", 3)], ["b", _arr("b", 3)]],
+            how={"kind": "nest", "f": "f", "old": "e", "new": "", "pre": desc_to_tla({"funcs": [f1, e1, h1]})})
+    a23 = {"f": "#arr", "a": [_arr(f"a{r}", 3) for r in range(2)]}
+    for axes, verdict in (("k, i", ""), ("i, k", " (accepted)")):
+        add(f"Pipeline([f, e]).add_mapspec_axis('a', axis='k') then add(t) with t: z[{axes}] -> v[{axes}]" + verdict,
+            [_f("f", ["a"], ["y"], "a[i, k] -> y[i, k]"), _f("e", ["y"], ["z"], "y[i, k] -> z[i, k]"),
+             _f("t", ["z"], ["v"], f"z[{axes}] -> v[{axes}]")], [["a", a23]],
+            how={"kind": "add_axis", "f": "t", "old": "a", "new": "k", "pre": desc_to_tla({"funcs": [f1, e1]})})
     return ex
 
 
@@ -759,7 +891,10 @@ def run(ctx: Ctx) -> None:
                 "counted and discarded; two functions sharing a root argument given two different defaults out of {None, 0, "
                 "an ordinary value} in both listing orders; the C01 cases with a tuple output whose mapped consumer is "
                 "re-wired to the SECOND output and then gets the axis-name faults, and the signature fault / rename "
-                "collision placed at the second output; "
+                "collision placed at the second output; a MapSpec with three or four arrays on one axis (mixed ranks, one "
+                "array optionally produced upstream) with every root array grown / shrunk by one slice along every axis; the "
+                "chain f -> e -> consumer of the C01 cases with f, e combined by NestedPipeFunc or rewritten by "
+                "add_mapspec_axis('a', axis='m') and the hand-written consumer given the axis-name faults; "
                 "plus the repository's pytest.raises examples and seeded random larger mutants judged by TLC; non-trivial = "
                 "the specification calls the request invalid")
     ctx.assumptions = ["TLC and the JSON/term encoding are trusted", "the run folder is compared by content (sha1 per file), "
@@ -772,11 +907,13 @@ def run(ctx: Ctx) -> None:
         # functions (the call-side families; Shard = NShards switches the other universe off)
         # (the tuple-output cases, a universe of their own, ride along with the second process)
         shards = [(s % 48, 48, 16, 16), (48, 48, s % 16, 16, 2, FAMILIES_N2 + FAMILIES_TUPLE, s % NSHARDS_T, NSHARDS_T),
-                  (48, 48, (7 * s) % 256, 256, 3, FAMILIES_N3)]
+                  (48, 48, (7 * s) % 256, 256, 3, FAMILIES_N3),
+                  (48, 48, 16, 16, 2, FAMILIES_WIDE, 0, 1, s % NSHARDS_D, NSHARDS_D)]
     else:
         shards = ([((s + 5 * k) % 16, 16, 4, 4) for k in range(2)] + [(16, 16, k, 4) for k in range(4)]   # two C01 shards; all of C02's N=2
                   + [(16, 16, (s + 11 * k) % 64, 64, 3, FAMILIES_N3 + ("illformed_run_func",)) for k in range(2)]   # two shards of C02's N=3
-                  + [(16, 16, 4, 4, 2, FAMILIES_TUPLE, (s + 3 * k) % 8, 8) for k in range(2)])   # two of eight shards of the tuple-output cases
+                  + [(16, 16, 4, 4, 2, FAMILIES_TUPLE, (s + 3 * k) % 8, 8) for k in range(2)]
+                  + [(16, 16, 4, 4, 2, FAMILIES_WIDE, 0, 1, 0, 1)])    # all of the wide-zip and derived-MapSpec families   # two of eight shards of the tuple-output cases
     # the export and the implementation-shaped orderings are independent TLC runs: side by side (their results are
     # registered afterwards, in a fixed order)
     late = _Deferred(ctx)
